@@ -32,7 +32,8 @@ def plan(tier):
     return {"shards": 8 if tier == "quick" else 16, "budget_s": 30 if tier == "quick" else 420,
             "required_counters": ["meshes_checked", "status_checks", "orientation_checks", "field_checks",
                                   "tetra_exhaustive_cases", "kind:torus", "kind:interpenetrating", "kind:spike", "kind:open",
-                                  "kind:small_parts", "kind:flat_bipyramid"],
+                                  "kind:small_parts", "kind:flat_bipyramid",
+                                  "route:late", "route:late_touched", "route:shown"],
             "exhaustive": "tetrahedron: all 24 face orders x 16 winding subsets x 24 vertex renumberings (thorough, "
                           "when counter tetra_slices_completed == shards; quick: a 1/8 stride)"}
 
@@ -119,12 +120,33 @@ def build(V, F, **kw):
 def check_mesh(ctx, case, V, F, truth, canonical):
     """canonical = (V0, F0) outward oriented reference mesh describing the same body"""
     key = {"mesh": case["kind"]}
+    route = case.get("route", "ctor")
+    if route != "ctor":
+        key["route"] = route
     try:
-        m = build(V, F, reorient_faces="ignore")
+        if route in ("late", "late_touched"):
+            # the same promise through the public method: handed over unchecked, (used once,) then reoriented
+            m = build(V, F, reorient_faces="skip")
+            if route == "late_touched":
+                with quiet(), np.errstate(all="ignore"):
+                    _ = m.mesh
+                    m.getB(np.array(V).mean(axis=0) + 0.013 * float(np.ptp(V, axis=0).max()))
+            with quiet(), np.errstate(all="ignore"):
+                m.reorient_faces(mode="ignore")
+        else:
+            m = build(V, F, reorient_faces="ignore")
+        if route == "shown":
+            # displaying the mesh with its status displays on (the disconnected display handles the parts one by
+            # one) must leave the normalised orientation alone
+            import magpylib as magpy
+            with quiet(), np.errstate(all="ignore"):
+                magpy.show(m, backend="plotly", return_fig=True, style_mesh_disconnected_show=True,
+                           style_mesh_grid_show=True, style_mesh_open_show=True, style_mesh_selfintersecting_show=True)
     except Exception as e:
         ctx.violation({**key, "kind": "constructor-raised", "type": type(e).__name__}, case, exc_info(e))
         return
     ctx.count("meshes_checked")
+    ctx.count("route:" + route)
     ctx.count("kind:" + case["kind"])
     nontriv = case["kind"] not in ("hull", "box", "prism") or case.get("flipped", 0) > 0
     ctx.evaluated(case, nontrivial=bool(nontriv))
@@ -212,7 +234,8 @@ def run_random(ctx, rng):
     Vt, Ft = M.transform(r2, V0, F0)
     flipped = int(np.sum([not any(np.array_equal(np.roll(f, k), g) for k in range(3)) for f, g in zip([], [])]))
     case = {"kind": kind, "seed": seed, "thin": thin, "size": sz, "tier": ctx.tier,
-            "flipped": int(not M.all_outward(Vt, Ft)) if not truth["open"] else 1}
+            "flipped": int(not M.all_outward(Vt, Ft)) if not truth["open"] else 1,
+            "route": str(rng.choice(["ctor", "late", "late_touched", "shown"], p=[0.55, 0.15, 0.2, 0.1]))}
     check_mesh(ctx, case, Vt, Ft, truth, (V0, F0))
 
 
